@@ -24,9 +24,17 @@ def demo_cmd(pid, m, wt):
         return 'sh %s %s' % (top, m), None
     if run:
         return 'sh %s %s' % (run[0], wt), None
+    subdirs = [f for f in files if os.path.isdir(os.path.join(d, f))]
+    if not rs and len(subdirs) == 1:
+        # a test module directory (grammar.ebnf + mod.rs) for the test crate, optionally with a patch adding the `mod` line
+        name = subdirs[0]
+        patch = os.path.join(d, 'lib_rs.patch')
+        add = ('git -C %s apply %s' % (wt, patch)) if os.path.exists(patch) else ("grep -q 'mod %s;' %s/test/src/lib.rs || echo 'mod %s;' >> %s/test/src/lib.rs" % (name, wt, name, wt))
+        return ('rm -rf %s/test/src/%s && cp -r %s %s/test/src/ && (%s) && find %s/test/src -name grammar.rs -delete && cd %s && cargo test -p peginator_test --offline %s; rc=$?; '
+                'rm -rf %s/test/src/%s; git -C %s checkout -- test/src/lib.rs; exit $rc') % (wt, name, os.path.join(d, name), wt, add, wt, wt, name, wt, name, wt), None
     if len(rs) == 1:
         name = rs[0][:-3]
-        pkgdir, pkg = ('runtime', 'peginator') if pid == 'C11' else (('codegen', 'peginator_codegen') if (pid, m) == ('C12', 'A') else ('macro', 'peginator_macro'))
+        pkgdir, pkg = ('runtime', 'peginator') if pid == 'C11' else (('codegen', 'peginator_codegen') if pid == 'C12' and (m == 'A' or name.startswith('c12_')) and 'multi_check' not in name else ('macro', 'peginator_macro'))
         dst = os.path.join(wt, pkgdir, 'tests')
         return 'mkdir -p %s && cp %s %s/ && cd %s && cargo test -p %s --offline --test %s' % (dst, os.path.join(d, rs[0]), dst, wt, pkg, name), os.path.join(dst, rs[0])
     raise Exception('unknown demo layout for %s/%s: %s' % (pid, m, files))
